@@ -52,6 +52,20 @@ func (c *vNetConn) SetDeadline(t time.Time) error      { return nil }
 func (c *vNetConn) SetReadDeadline(t time.Time) error  { return nil }
 func (c *vNetConn) SetWriteDeadline(t time.Time) error { return nil }
 
+// vConcreteKeys: 16 bytes (valid), valid with surrounding white space, 15 bytes, 17 bytes and 18 bytes (both 24 characters
+// long, like a valid key), 32 bytes, 24 characters that are not base64, missing padding, empty.
+var vConcreteKeys = []string{
+	"dGhlIHNhbXBsZSBub25jZQ==",
+	" dGhlIHNhbXBsZSBub25jZQ== ",
+	"AAAAAAAAAAAAAAAAAAAA",
+	"zc3Nzc3Nzc3Nzc3Nzc3Nzc0=",
+	"AAAAAAAAAAAAAAAAAAAAAAAA",
+	"AAAAAAAAAAAAAAAAAAAAAAAAAAAAAAAAAAAAAAAAAAA=",
+	"!!!!!!!!!!!!!!!!!!!!!!==",
+	"dGhlIHNhbXBsZSBub25jZQ",
+	"",
+}
+
 const vGUID = "258EAFA5-E914-47DA-95CA-C5AB0DC85B11"
 
 func vRefAcceptKey(key string) string {
@@ -86,6 +100,21 @@ func vSetHeader(h http.Header, key string, vals []string) {
 
 // vSymRequest: an upgrade request whose method, version, and header values are arbitrary strings.
 func vSymRequest(maxVals int) (*http.Request, map[string][]string) {
+	if vParam("keyFocus", 0) == 1 {
+		// everything but the key is a fixed valid upgrade request; the key is one of the concrete boundary keys, given
+		// once or twice
+		r := &http.Request{Method: "GET", ProtoMajor: 1, ProtoMinor: 1, Header: http.Header{}, Host: "example.com"}
+		hv := map[string][]string{"Connection": {"Upgrade"}, "Upgrade": {"websocket"}, "Sec-Websocket-Version": {"13"}}
+		keys := []string{vConcreteKeys[vChoose("ckey", len(vConcreteKeys))]}
+		if vChoose("twoKeys", 2) == 1 {
+			keys = append(keys, vConcreteKeys[0])
+		}
+		hv["Sec-Websocket-Key"] = keys
+		for k, v := range hv {
+			vSetHeader(r.Header, k, v)
+		}
+		return r, hv
+	}
 	r := &http.Request{Method: vString("method"), ProtoMajor: vInt("major", 0, 3), ProtoMinor: vInt("minor", 0, 2), Header: http.Header{}, Host: vString("host")}
 	hv := map[string][]string{}
 	hv["Connection"] = vSymValues("connection", maxVals)
@@ -95,6 +124,10 @@ func vSymRequest(maxVals int) (*http.Request, map[string][]string) {
 	if vParam("symKey", 1) == 0 {
 		// a concrete, valid key: no uninterpreted base64 on the path, so every counterexample replays natively
 		hv["Sec-Websocket-Key"] = []string{"dGhlIHNhbXBsZSBub25jZQ=="}
+		if n := vParam("ckeys", 0); n > 0 {
+			// ... or one of a few concrete keys around the validity boundary (the reference evaluates the real base64 on them)
+			hv["Sec-Websocket-Key"] = []string{vConcreteKeys[vChoose("ckey", n)]}
+		}
 	}
 	for k, v := range hv {
 		vSetHeader(r.Header, k, v)
@@ -154,7 +187,9 @@ func verifC11_accept() {
 		if vParam("symKey", 1) == 0 {
 			hv["Sec-Websocket-Key"] = []string{"dGhlIHNhbXBsZSBub25jZQ=="}
 		}
-		if vChoose("breakRequest", 3) == 1 {
+		if focus == 3 {
+			r.Host = "example.com"
+		} else if vChoose("breakRequest", 3) == 1 {
 			r.Method = "POST" // one representative invalid request: the error path of accept
 		}
 		for k, v := range hv {
@@ -163,7 +198,7 @@ func verifC11_accept() {
 	}
 	var origin, cprotos []string
 	opts := &AcceptOptions{InsecureSkipVerify: true}
-	if focus != 1 {
+	if focus != 1 && focus != 3 {
 		origin = vSymValues("origin", 1)
 		vSetHeader(r.Header, "Origin", origin)
 		opts.InsecureSkipVerify = vBool("skipVerify")
@@ -171,7 +206,18 @@ func verifC11_accept() {
 			opts.OriginPatterns = append(opts.OriginPatterns, vString("pattern"))
 		}
 	}
-	if focus != 2 {
+	if focus == 3 {
+		// concrete grid: the offer on one or two header lines, each a small token list; the server's preference list
+		lines := []string{"v1", "v2", "v1, v2", "V3,v1", ""}
+		for i := 0; i < 1+vChoose("cprotoLines", 2); i++ {
+			cprotos = append(cprotos, lines[vChoose("cprotoLine", len(lines))])
+		}
+		vSetHeader(r.Header, "Sec-Websocket-Protocol", cprotos)
+		sp := []string{"v2", "v3", "v1"}
+		for i := 0; i < vChoose("sprotos", 3); i++ {
+			opts.Subprotocols = append(opts.Subprotocols, sp[vChoose("sproto", len(sp))])
+		}
+	} else if focus != 2 {
 		cprotos = vSymValues("cproto", 1)
 		vSetHeader(r.Header, "Sec-Websocket-Protocol", cprotos)
 		for i := 0; i < vChoose("sprotos", 3); i++ {
